@@ -63,8 +63,11 @@ class SyncSuite(Suite):
             if not isinstance(i, dict) or "view" not in i:
                 out.append({"op": "sync", "view": [], "before": [], "after": [], "opt": o["opt"]})
                 continue
-            out.append({"op": "sync", "view": i["view"], "viewkind": o["src"]["kind"], "before": i["before"], "after": i["after"],
-                        "opt": o["opt"], "notif": i.get("notif", [])})
+            m = {"op": "sync", "view": i["view"], "viewkind": o["src"]["kind"], "before": i["before"], "after": i["after"],
+                 "opt": o["opt"], "notif": i.get("notif", [])}
+            if "sfilter" in o:
+                m["sfilter"] = o["sfilter"]
+            out.append(m)
         return out
 
     def judge(self, op, impl, model):
@@ -180,6 +183,59 @@ class SyncC02(SyncSuite):
         if rng.random() < 0.7:
             op["dst"] = gen.mutate_disk_tree(rng, op["src"]["tree"], rng.choice([0, 1, 2, 3]))
         return op
+
+
+class SendFilter(SyncSuite):
+    """C11: a filtered view (include/exclude, hard-link groups spread over included and excluded paths) transfers as a self-contained tree"""
+    name = "sendfilter"
+    focus = ("c01", "c11")
+    rule = ("sources with hard-link groups spread over included and excluded paths x include/exclude lists from the pattern fragment; real Send over "
+            "NewFilterFS(view) + Receive; STAT log vs filterWalk + hard-link reset model; destination = filtered view; non-trivial = filter non-empty, distinct")
+
+    def gen_case(self, rng):
+        from . import filt
+        while True:
+            tree = gen.disk_tree(rng, rng.choice([8, 20, 40]), 4, types=("dir", "file", "file", "hardlink", "hardlink", "symlink", "fifo"),
+                                 file_sizes=(0, 5, 100, 40000), xattrs=False)
+            paths = [bytes.fromhex(e["p"]) for e in tree]
+            if tree and all(filt.fragment_ok([p]) for p in paths):
+                break
+        sf = {}
+        r = rng.random()
+        if r < 0.45:
+            sf["exclude"] = [hx(p) for p in filt.pattern_list(rng, paths, 0.3)]
+        elif r < 0.85:
+            sf["include"] = [hx(p) for p in filt.pattern_list(rng, paths, 0.2)]
+        else:
+            sf["include"] = [hx(p) for p in filt.pattern_list(rng, paths, 0.2)]
+            sf["exclude"] = [hx(p) for p in filt.pattern_list(rng, paths, 0.3)]
+        dst = [] if rng.random() < 0.6 else gen.mutate_disk_tree(rng, tree)
+        return {"op": "sync", "src": {"kind": "mem" if rng.random() < 0.7 else "disk", "tree": tree}, "dst": dst, "sfilter": sf,
+                "opt": {"notify": True, "cap": rng.choice([0, 4, 32]), "seed": rng.randrange(1 << 30)}}
+
+    def judge(self, op, impl, model):
+        v = super().judge(op, impl, model)
+        if v.spec_ok is not False and model.get("links_closed") is False:
+            return Verdict(v.agree, False, "C11: a hard link in the announced view names an entry that is not in the view; " + v.note)
+        return v
+
+    def nontrivial(self, op, impl, model):
+        return bool(op["sfilter"].get("include") or op["sfilter"].get("exclude"))
+
+    matchers = {
+        # F5: the walk announces a file (parent-result matcher) that Open (stateless matcher) refuses: it arrives empty.
+        # Signature: a '!' pattern is present and the announced STAT sequence is exactly the model's filtered view.
+        "F5": lambda op, impl, model: any(bytes.fromhex(p).strip().startswith(b"!") for p in op["sfilter"].get("include", []) + op["sfilter"].get("exclude", []))
+        and [norm_stat(s) for s in sent_stats(impl)] == [norm_stat(s) for s in model.get("sent", [])],
+    }
+
+    def features(self, op, impl, model):
+        f = super().features(op, impl, model)
+        sent = sent_stats(impl)
+        view = impl.get("view") or []
+        f.append("filtered_out=%s" % (len(sent) < len(view)))
+        f.append("links_in_view=%s" % any(s.get("ln") and s["mode"] & gen_type_mask() == 0 for s in sent))
+        return f
 
 
 class SyncC05(SyncSuite):
